@@ -42,9 +42,23 @@ def main():
             if tag == "H":
                 k = int(parts[1])
                 rep["evaluations"] += 1
-                got = pk.OligoComputer(k).get_header()
+                oc_h = pk.OligoComputer(k)
+                got = oc_h.get_header()
                 if ",".join(got) != parts[2]:
                     viol("header", k, "OligoComputer(%d).get_header() = %r..., core header %r..." % (k, got[:6], parts[2][:40]))
+                else:
+                    # what a call returns belongs to the caller: changing it must not change what the next call returns
+                    got.insert(0, "id")
+                    got.reverse()
+                    again = oc_h.get_header()
+                    if ",".join(again) != parts[2]:
+                        viol("header", k, "OligoComputer(%d).get_header() after the list returned by the previous call was modified by the caller = %r..., core header %r..." % (k, again[:6], parts[2][:40]))
+                    row = oc_h.vectorise_one("ACGTTGCAAC", False)
+                    row_copy = list(row)
+                    for i in range(len(row)):
+                        row[i] = -1.0
+                    if oc_h.vectorise_one("ACGTTGCAAC", False) != row_copy:
+                        viol("oligo-vector", k, "OligoComputer(%d).vectorise_one returns another vector after the list returned by the previous call was modified by the caller" % k)
                 rep["nontrivial"] += 1
                 continue
             if tag == "T":
